@@ -520,4 +520,88 @@ example : ∃ st ∈ Gen.strategies, st.1 = "dss" ∧
     Atom.change ∈ t ∧ Atom.clear ∈ t ∧ Atom.eval ∈ t ∧ Atom.load ∈ t ∧ 20 ≤ t.length := by decide
 example (t : List Atom) : ∃ es : List (Ev Nat Nat), Realizes t es := realizes_exists 0 0 t
 
+/-! ### Frame facts (session 4): one operation touches ONE slot
+
+These are the local (single-step) facts behind `find_sound`: they hold for EVERY cache value, reachable or
+not, every index function and every table size.  A change that makes `insert` / `clear(k)` write a second
+slot, keep a stale seal, or that makes `find` accept a partial key match breaks the tie `gen_*_is_model`
+first and these statements say which visible behaviour is then no longer guaranteed. -/
+
+/-- an insertion that goes to another slot never changes what `find k` answers -/
+theorem find_insert_frame (c : Cache) (k k' : Key) (v : Fit) (h : c.idx k' ≠ c.idx k) :
+    (c.insert k' v).find k = c.find k := by
+  have h' : ¬ c.idx k = c.idx k' := fun e => h e.symm
+  simp [Cache.find, Cache.insert, setSlot, h']
+
+/-- `clear(k')` of a key that lives in another slot never changes what `find k` answers -/
+theorem find_clearKey_frame (c : Cache) (k k' : Key) (h : c.idx k' ≠ c.idx k) :
+    (c.clearKey k').find k = c.find k := by
+  have h' : ¬ c.idx k = c.idx k' := fun e => h e.symm
+  simp [Cache.find, Cache.clearKey, setSlot, h']
+
+/-- a colliding insertion (same slot, different 128-bit key) EVICTS: afterwards `find k` is a miss,
+    never the foreign value -/
+theorem find_insert_collision_evicts (c : Cache) (k k' : Key) (v : Fit) (hs : c.idx k' = c.idx k)
+    (hne : k' ≠ k) : (c.insert k' v).find k = none := by
+  have hne' : ¬ k = k' := fun e => hne e.symm
+  simp [Cache.find, Cache.insert, setSlot, hs, hne']
+
+/-- `clear(k)` of a non-empty key makes `find k` a miss at once, in every cache -/
+theorem find_clearKey_self_miss (c : Cache) (k : Key) (hk : k.empty = false) : (c.clearKey k).find k = none := by
+  have hz : ¬ k = Key.zero := by
+    intro e; subst e; simp [Key.empty, Key.zero] at hk
+  simp [Cache.find, Cache.clearKey, setSlot, hz]
+
+/-- `clear(k')` never creates a hit: whatever `find k` answers after it, it answered before -/
+theorem find_clearKey_le (c : Cache) (k k' : Key) (hk : k.empty = false) (v : Fit)
+    (h : (c.clearKey k').find k = some v) : c.find k = some v := by
+  by_cases hi : c.idx k' = c.idx k
+  · have hz : ¬ k = Key.zero := by
+      intro e; subst e; simp [Key.empty, Key.zero] at hk
+    simp [Cache.find, Cache.clearKey, setSlot, hi, hz] at h
+  · rw [find_clearKey_frame c k k' hi] at h; exact h
+
+/-- storing the same pair twice is storing it once -/
+theorem insert_idem (c : Cache) (k : Key) (v : Fit) : (c.insert k v).insert k v = c.insert k v := by
+  simp only [Cache.insert]
+  congr 1
+  funext j
+  simp only [setSlot]
+  split <;> rfl
+
+/-- the last store into a slot wins: a second insertion under the same key overwrites the first -/
+theorem insert_overwrite (c : Cache) (k : Key) (v w : Fit) : (c.insert k v).insert k w = c.insert k w := by
+  simp only [Cache.insert]
+  congr 1
+  funext j
+  simp only [setSlot]
+  split <;> rfl
+
+/-- insertions into different slots commute (the table is a function of the SET of last stores) -/
+theorem insert_comm (c : Cache) (k k' : Key) (v w : Fit) (h : c.idx k ≠ c.idx k') :
+    ((c.insert k v).insert k' w).table = ((c.insert k' w).insert k v).table := by
+  funext j
+  simp only [Cache.insert, setSlot]
+  by_cases h1 : j = c.idx k <;> by_cases h2 : j = c.idx k' <;> simp [h1, h2]
+  · exact absurd (h1.symm.trans h2) h
+  · intro e; exact absurd e h
+  · intro e; exact absurd e.symm h
+
+/-- the same frame facts for the code GENERATED from cache.cc: the extracted `find` after the extracted
+    `insert` of a key that is sent to another slot answers what it answered before -/
+theorem find_insert_frame_gen (st : CState) (k k' : Key) (v : Fit)
+    (h : (toCache st).idx k' ≠ (toCache st).idx k) :
+    (ginsert st k' v).bind (fun st' => gfind st' k) = gfind st k := by
+  rw [gen_insert_is_model, Option.bind_some, gen_find_is_model, gen_find_is_model]
+  have e : toCache (ofCache st.mask ((toCache st).insert k' v)) = (toCache st).insert k' v := by
+    exact toCache_ofCache st _ rfl rfl
+  rw [e]
+  simp only [Cache.lookup, find_insert_frame (toCache st) k k' v h]
+
+/-- non-vacuity: a 4-slot cache with two keys in different slots and two colliding keys -/
+example : let c := Cache.init (fun k => k.d0.toNat % 4) [0, 1, 2, 3]
+    ((c.insert ⟨1, 0⟩ [7]).insert ⟨2, 0⟩ [8]).find ⟨1, 0⟩ = some [7] ∧
+    ((c.insert ⟨1, 0⟩ [7]).insert ⟨5, 0⟩ [9]).find ⟨1, 0⟩ = none ∧
+    ((c.insert ⟨1, 0⟩ [7]).clearKey ⟨1, 0⟩).find ⟨1, 0⟩ = none := by decide
+
 end Vita.C04
